@@ -16,7 +16,7 @@ type MapCodec struct {
 func (m *MapCodec) Read(r *ReadBuf, p unsafe.Pointer) error {
 	// p is a pointer to a map pointer
 	if *(*unsafe.Pointer)(p) == nil {
-		*(*unsafe.Pointer)(p) = m.New(r)
+		*(*unsafe.Pointer)(p) = unsafe.Pointer(reflect.MakeMap(m.rtype).Pointer())
 	}
 	mp := *(*unsafe.Pointer)(p)
 
@@ -95,8 +95,9 @@ func (m *MapCodec) Skip(r *ReadBuf) error {
 	return nil
 }
 
+// New creates a pointer to a (nil) map variable. Read makes the map itself.
 func (m *MapCodec) New(r *ReadBuf) unsafe.Pointer {
-	return unsafe.Pointer(reflect.MakeMap(m.rtype).Pointer())
+	return r.Alloc(m.rtype)
 }
 
 func (m *MapCodec) Omit(p unsafe.Pointer) bool {
